@@ -49,6 +49,10 @@ Fixpoint fetch_tab (l : list resp) (t : list (Z * resp)) : list (Z * resp) :=
   | RFetch n fl u g :: r => fetch_tab r (fput t n (RFetch n fl u g))
   | _ :: r => fetch_tab r t
   end.
+(* the flags of the last line about a message: whether that line is the command's own result (with UID for a UID
+   command) or a notification that overtook it does not matter, the flags it reports do *)
+Definition flags_eqb (a b : resp) : bool :=
+  match a, b with RFetch n f _ _, RFetch m f' _ _ => (n =? m) && sset_eqb f f' | _, _ => false end.
 Definition is_body (r : resp) : bool := match r with RBody _ _ _ _ _ | RSearch _ => true | _ => false end.
 (* the sequence numbers a FETCH/STORE addresses when it runs in world w (its message set after admission) *)
 Definition own_keys (w : world) (o : op) : list Z :=
@@ -73,7 +77,7 @@ Definition data_ok (keys : list Z) (model impl : list resp) : bool :=
   let tm := fetch_tab model [] in
   let ti := fetch_tab impl [] in
   forallb (fun nr => negb (zmem (fst nr) keys) ||
-                     match fget ti (fst nr) with Some r => resp_eqb (snd nr) r | None => false end) tm &&
+                     match fget ti (fst nr) with Some r => flags_eqb (snd nr) r | None => false end) tm &&
   forallb (fun nr => negb (zmem (fst nr) keys) ||
                      match fget tm (fst nr) with Some _ => true | None => false end) ti &&
   let bm := filter is_body model in
@@ -157,7 +161,9 @@ Fixpoint run_atoms (w : world) (t : ptable) (order : list atom) : option world :
   | [] => Some w
   | AOp o want data :: rest =>
       let '(w', out) := step w o in
-      if oresp_eqb (tagged_of (op_issuer o) out) want && data_ok (own_keys w o) (own_data (op_issuer o) out) data
+      (* a refused command has no results; what was flushed when it arrived is notification timing *)
+      if oresp_eqb (tagged_of (op_issuer o) out) want &&
+         (match want with ROk _ => data_ok (own_keys w o) (own_data (op_issuer o) out) data | _ => true end)
       then run_atoms w' t rest else None
   | ARead i s uidc st dst mv want :: rest =>
       match read_half w s uidc st dst mv with
